@@ -98,6 +98,68 @@ func reach(from Site, to func(ssa.Instruction) bool, cuts *Cuts) (bool, []*ssa.B
 	return false, nil
 }
 
+// closeBoolPhis: cutting an edge into a short-circuit join decides the
+// joined condition when every remaining way in carries the same constant:
+// `!a && b()` with the edge into b() cut leaves phi[false] – its true arm is
+// dead too.  Adds those arms to the cuts (to a fixpoint).
+func (c *Cuts) closeBoolPhis(fn *ssa.Function) *Cuts {
+	for changed := true; changed; {
+		changed = false
+		// blocks still reachable from the entry
+		live := map[*ssa.BasicBlock]bool{fn.Blocks[0]: true}
+		work := []*ssa.BasicBlock{fn.Blocks[0]}
+		for len(work) > 0 {
+			b := work[0]
+			work = work[1:]
+			for _, s := range b.Succs {
+				if !c.Edges[Edge{b, s}] && !live[s] {
+					live[s] = true
+					work = append(work, s)
+				}
+			}
+		}
+		for _, b := range fn.Blocks {
+			iff, ok := terminator(b).(*ssa.If)
+			if !ok || len(b.Succs) != 2 {
+				continue
+			}
+			ph, ok := iff.Cond.(*ssa.Phi)
+			if !ok || ph.Block() != b {
+				continue
+			}
+			allTrue, allFalse, nLive := true, true, 0
+			for i, e := range ph.Edges {
+				if c.Edges[Edge{b.Preds[i], b}] || !live[b.Preds[i]] {
+					continue
+				}
+				nLive++
+				k, isC := e.(*ssa.Const)
+				if !isC || k.Value == nil {
+					allTrue, allFalse = false, false
+					continue
+				}
+				if k.Value.String() == "true" {
+					allFalse = false
+				} else {
+					allTrue = false
+				}
+			}
+			if nLive == 0 {
+				continue
+			}
+			if allFalse && !c.Edges[Edge{b, b.Succs[0]}] {
+				c.Edges[Edge{b, b.Succs[0]}] = true
+				changed = true
+			}
+			if allTrue && !c.Edges[Edge{b, b.Succs[1]}] {
+				c.Edges[Edge{b, b.Succs[1]}] = true
+				changed = true
+			}
+		}
+	}
+	return c
+}
+
 func isInstr(target ssa.Instruction) func(ssa.Instruction) bool {
 	return func(in ssa.Instruction) bool { return in == target }
 }
